@@ -47,6 +47,8 @@ def run(tier):
         for i, c in enumerate(okp[: (1500 if tier == "quick" else 20000)]):
             jobs.append((c, "cut", vlib.seed() * 3 + i))
             jobs.append((c, "mutant", vlib.seed() * 5 + i))
+        # directed: an effectful request padded with filler, the input closed inside the filler (with / without Hello)
+        jobs += [(None, "slackcut", k) for k in range(12 * (3 if tier == "quick" else 20))]
         recs = hs.run_cases(copia, os.path.join(work, "s"), hashes, cal, jobs)
         files = []
         shard = 2500
